@@ -2,6 +2,7 @@ package props
 
 import (
 	"fmt"
+	"math"
 
 	"go.pennock.tech/tabular"
 
@@ -466,6 +467,29 @@ func (m *c02Model) check(c *Ctx) (string, string) {
 				if cell != nil {
 					return "CellAt-error-with-cell", fmt.Sprintf("CellAt(%+v) returned both a cell and an error", loc)
 				}
+			}
+		}
+	}
+	// coordinates far away - a valid one displaced by a power of two (whatever width a lookup might compute in), the
+	// ends of the integer range: there is no such cell
+	if nr := len(m.rows); nr > 0 {
+		m.looks++
+		base := tabular.CellLocation{Row: 1 + m.looks%nr, Column: 1}
+		for _, sh := range []uint{8, 16, 31, 32, 33, 48, 62} {
+			for _, sign := range []int{1, -1} {
+				d := sign * (1 << sh)
+				for _, loc := range []tabular.CellLocation{{Row: base.Row + d, Column: base.Column}, {Row: base.Row, Column: base.Column + d}, {Row: base.Row + d, Column: base.Column + d}} {
+					cell, err := t.CellAt(loc)
+					c.Rec.Count("cellat_lookups_far_outside_the_table", 1)
+					if err == nil || cell != nil {
+						return "CellAt-should-fail:far-away", fmt.Sprintf("CellAt(%+v) succeeded; the table has %d rows", loc, nr)
+					}
+				}
+			}
+		}
+		for _, loc := range []tabular.CellLocation{{Row: math.MaxInt64, Column: 1}, {Row: math.MinInt64, Column: 1}, {Row: 1, Column: math.MaxInt64}, {Row: 1, Column: math.MinInt64}, {Row: math.MaxInt32 + 2, Column: 1}, {Row: 1, Column: math.MaxUint32 + 2}} {
+			if cell, err := t.CellAt(loc); err == nil || cell != nil {
+				return "CellAt-should-fail:far-away", fmt.Sprintf("CellAt(%+v) succeeded; the table has %d rows", loc, nr)
 			}
 		}
 	}
